@@ -54,6 +54,13 @@ theorem Trace.of_same {a b : State} (hm : b.mem = a.mem) (hb : b.blk = a.blk) (h
 section fields
 variable (st : State)
 
+@[simp] theorem setNode_per (c n) : (st.setNode c n).per = st.per := rfl
+@[simp] theorem setArr_per (a x) : (st.setArr a x).per = st.per := rfl
+@[simp] theorem alloc_per (n) : (st.alloc n).per = st.per := rfl
+@[simp] theorem freeBlk_per (b) : (st.freeBlk b).per = st.per := rfl
+@[simp] theorem ctor_per (d s p) : (st.ctor d s p).per = st.per := rfl
+@[simp] theorem assign_per (d s p) : (st.assign d s p).per = st.per := rfl
+@[simp] theorem dtor_per (d) : (st.dtor d).per = st.per := rfl
 @[simp] theorem setNode_mem (c n) : (st.setNode c n).mem = st.mem := rfl
 @[simp] theorem setNode_blk (c n) : (st.setNode c n).blk = st.blk := rfl
 @[simp] theorem setNode_next (c n) : (st.setNode c n).next = st.next := rfl
@@ -206,6 +213,10 @@ theorem dtorLocs_mem (st : State) (ls : List Loc) (l : Loc) :
       · simp [h1, h2]
       · simp [h1, h2]
 
+@[simp] theorem dtorLocs_per (st : State) (ls : List Loc) : (st.dtorLocs ls).per = st.per := by
+  induction ls generalizing st with
+  | nil => rfl
+  | cons a rest ih => simp [State.dtorLocs, ih]
 @[simp] theorem dtorLocs_blk (st : State) (ls : List Loc) : (st.dtorLocs ls).blk = st.blk := by
   induction ls generalizing st with
   | nil => rfl
@@ -237,6 +248,10 @@ theorem trace_dtorLocs (st : State) (ls : List Loc) (hn : ls.Nodup)
     simp only [dtor_mem, upd, hne, if_false]
     exact hl l (by simp [hlr])
 
+@[simp] theorem ctorList_per (st : State) (xs : List (Loc × Option Loc × Option Nat)) : (st.ctorList xs).per = st.per := by
+  induction xs generalizing st with
+  | nil => rfl
+  | cons a rest ih => obtain ⟨d, s, p⟩ := a; simp [State.ctorList, ih]
 @[simp] theorem ctorList_blk (st : State) (xs : List (Loc × Option Loc × Option Nat)) : (st.ctorList xs).blk = st.blk := by
   induction xs generalizing st with
   | nil => rfl
@@ -316,6 +331,10 @@ theorem trace_ctorList (st : State) (xs : List (Loc × Option Loc × Option Nat)
         · simp [h2, hp (d, s, p) (by simp)]
         · simpa [h2] using h
 
+@[simp] theorem freeBlocks_per (st : State) (bs : List Nat) : (st.freeBlocks bs).per = st.per := by
+  induction bs generalizing st with
+  | nil => rfl
+  | cons a rest ih => simp [State.freeBlocks, ih]
 @[simp] theorem freeBlocks_mem (st : State) (bs : List Nat) : (st.freeBlocks bs).mem = st.mem := by
   induction bs generalizing st with
   | nil => rfl
@@ -380,11 +399,11 @@ def owns (st : State) : Owner → Nat → Prop
 
 structure SInv (st : State) : Prop where
   slots_nodup : ∀ c, ((st.nodes c).items ++ (st.nodes c).free).Nodup
-  slots_in : ∀ c it, it ∈ (st.nodes c).items ++ (st.nodes c).free → it.b ∈ (st.nodes c).blocks ∧ it.i < 4
+  slots_in : ∀ c it, it ∈ (st.nodes c).items ++ (st.nodes c).free → it.b ∈ (st.nodes c).blocks ∧ it.i < st.per.f c.k
   blocks_nodup : ∀ c, (st.nodes c).blocks.Nodup
   data_notin : ∀ c d, (st.nodes c).data = some d → d ∉ (st.nodes c).blocks
   own_unique : ∀ o o' b, owns st o b → owns st o' b → o = o'
-  blocks_blk : ∀ c b, b ∈ (st.nodes c).blocks → st.blk b = some 4
+  blocks_blk : ∀ c b, b ∈ (st.nodes c).blocks → st.blk b = some (st.per.f c.k)
   data_blk : ∀ c d, (st.nodes c).data = some d → st.blk d = some 0
   store_blk : ∀ a s, (st.arrs a).store = some s → st.blk s = some (st.arrs a).cap
   blk_own : ∀ b n, st.blk b = some n → ∃ o, owns st o b
@@ -479,18 +498,18 @@ theorem resolve_live {st : State} (h : SInv st) (r : SrcRef) (l : Option Loc) (p
 /-- a state that differs only in payloads (same containers, blocks, liveness) keeps the invariant -/
 theorem SInv.of_same_live {st st' : State} (h : SInv st) (hn : st'.nodes = st.nodes) (ha : st'.arrs = st.arrs)
     (hb : st'.blk = st.blk) (hx : st'.next = st.next)
-    (hm : ∀ l, (st'.mem l).isSome = (st.mem l).isSome) : SInv st' := by
+    (hm : ∀ l, (st'.mem l).isSome = (st.mem l).isSome) (hp : st'.per = st.per := by rfl) : SInv st' := by
   have hl : ∀ l, LiveLoc st l → LiveLoc st' l := by
     intro l hl; simpa only [LiveLoc, hn, ha] using hl
   have ho : ∀ o b, owns st' o b ↔ owns st o b := by
     intro o b; cases o <;> simp only [owns, hn, ha]
   constructor
   · simpa only [hn] using h.slots_nodup
-  · simpa only [hn] using h.slots_in
+  · simpa only [hn, hp] using h.slots_in
   · simpa only [hn] using h.blocks_nodup
   · simpa only [hn] using h.data_notin
   · intro o o' b h1 h2; exact h.own_unique o o' b ((ho o b).mp h1) ((ho o' b).mp h2)
-  · simpa only [hn, hb] using h.blocks_blk
+  · simpa only [hn, hb, hp] using h.blocks_blk
   · simpa only [hn, hb] using h.data_blk
   · simpa only [ha, hb] using h.store_blk
   · intro b n hbn
